@@ -143,6 +143,11 @@ func ParseLine(s string) *Line {
 		}
 	}
 
+	if s == "" {
+		// nothing after the tags
+		return nil
+	}
+
 	if s[0] == ':' {
 		// remove a source and parse it
 		if idx := strings.Index(s, " "); idx != -1 {
@@ -164,6 +169,10 @@ func ParseLine(s string) *Line {
 	// now we're here, we've parsed a :nick!user@host or :server off
 	// s should contain "cmd args[] :text"
 	args := strings.SplitN(s, " :", 2)
+	if len(strings.Fields(args[0])) == 0 {
+		// no verb, nothing we can dispatch on
+		return nil
+	}
 	if len(args) > 1 {
 		args = append(strings.Fields(args[0]), args[1])
 	} else {
